@@ -65,6 +65,30 @@ type vfC23Case struct {
 	// so that NACK -> RTX retransmissions (several per NACK) reach TrackRemote.Read.
 	Loss        []vfC23LossRun `json:"loss,omitempty"`
 	VNetDelayMs int            `json:"vnet_delay_ms,omitempty"`
+	// Concurrent variant (>= 2 tracks): after the probe phase all tracks start their data phase
+	// together, each from its own goroutine, without pauses, mixing WriteRTP and Write(raw);
+	// before that (Malformed) and every MalformedEvery packets a buffer that is not RTP is
+	// given to Write (its error is expected and ignored).
+	Concurrent     bool  `json:"concurrent,omitempty"`
+	Malformed      []int `json:"malformed,omitempty"` // kinds, see vfC23Malformed
+	MalformedEvery int   `json:"malformed_every,omitempty"`
+}
+
+// vfC23Malformed returns a buffer that cannot be parsed as RTP (every kind is shorter than the
+// header it announces).
+func vfC23Malformed(kind int) []byte {
+	switch kind % 5 {
+	case 0:
+		return []byte{}
+	case 1:
+		return []byte{0x80, 0x60, 0x00, 0x01, 0x00}
+	case 2:
+		return []byte{0x80, 0x60, 0, 1, 0, 0, 0, 1, 0, 0, 0}
+	case 3:
+		return []byte{0x8f, 0x60, 0, 1, 0, 0, 0, 1, 0, 0, 0, 1} // 15 CSRCs announced, none present
+	default:
+		return []byte{0x90, 0x60, 0, 1, 0, 0, 0, 1, 0, 0, 0, 1} // extension bit, no extension header
+	}
 }
 
 type vfC23LossRun struct {
@@ -409,6 +433,22 @@ func vfC23Run(v *vfT, c vfC23Case) {
 	var swg sync.WaitGroup
 	var smu sync.Mutex
 	writeErrs := 0
+	malformedAccepted := 0
+	var barrier sync.WaitGroup // concurrent variant: all data phases start together
+	barrier.Add(len(c.Tracks))
+	if c.Concurrent {
+		v.Label("concurrent-writers")
+		if len(c.Malformed) > 0 || c.MalformedEvery > 0 {
+			v.Label("concurrent-writers+malformed-writes")
+		}
+	}
+	malformed := func(i, kind int) {
+		if _, merr := locals[i].Write(vfC23Malformed(kind)); merr == nil {
+			smu.Lock()
+			malformedAccepted++
+			smu.Unlock()
+		}
+	}
 	// the sender's RTCP has to be read for the NACK responder to see the NACKs
 	for _, sd := range senders {
 		go func(sd *RTPSender) {
@@ -504,6 +544,59 @@ func vfC23Run(v *vfT, c vfC23Case) {
 			lmu.Lock()
 			dataStart[i] = int(seq)
 			lmu.Unlock()
+			if c.Concurrent {
+				// everything prepared up front so that the writers really overlap
+				pkts := make([]*rtp.Packet, t.N)
+				raws := make([][]byte, t.N)
+				smu.Lock()
+				for idx := 0; idx < t.N; idx++ {
+					pl := vfC23Payload(i, 1, idx, t.Seed)
+					marker := (idx+1)%3 == 0
+					sent[i][[2]int{1, idx}] = sentPkt{pl, seq, ts, marker}
+					pkts[idx] = &rtp.Packet{
+						Header:  rtp.Header{Version: 2, PayloadType: 0, SequenceNumber: seq, Timestamp: ts, Marker: marker, SSRC: 0xdeadbeef},
+						Payload: pl,
+					}
+					if (t.Seed>>(uint(idx)%16))&1 == 1 {
+						raws[idx], _ = pkts[idx].Marshal()
+					}
+					seq++
+					ts += 960
+				}
+				smu.Unlock()
+				if i == 0 {
+					for _, k := range c.Malformed {
+						malformed(i, k)
+					}
+				}
+				barrier.Done()
+				barrier.Wait()
+				nerr := 0
+				for idx := 0; idx < t.N; idx++ {
+					var werr error
+					if raws[idx] != nil {
+						_, werr = locals[i].Write(raws[idx])
+					} else {
+						werr = locals[i].WriteRTP(pkts[idx])
+					}
+					if werr != nil {
+						nerr++
+					}
+					if c.MalformedEvery > 0 && idx%c.MalformedEvery == c.MalformedEvery-1 {
+						malformed(i, idx/c.MalformedEvery+i)
+					}
+				}
+				smu.Lock()
+				writeErrs += nerr
+				smu.Unlock()
+				// a short tail so that the reader is not left waiting in front of the last packets
+				for idx := 0; idx < 20; idx++ {
+					write(2, idx)
+					time.Sleep(time.Millisecond)
+				}
+				return
+			}
+			barrier.Done()
 			for idx := 0; idx < t.N; idx++ {
 				write(1, idx)
 				switch {
@@ -542,6 +635,12 @@ func vfC23Run(v *vfT, c vfC23Case) {
 	rmu.Unlock()
 	if len(got) == 0 {
 		v.Label("inconclusive:no-track-arrived")
+		return
+	}
+	if malformedAccepted > 0 {
+		// a buffer the harness believes is not RTP was accepted and sent: untagged packets may
+		// legitimately be on the wire, the comparison below would not be sound
+		v.Label("inconclusive:malformed-write-accepted")
 		return
 	}
 	if writeErrs > 0 {
@@ -698,6 +797,7 @@ func TestVerif_C23_Media(t *testing.T) {
 		Assumptions: []string{
 			"packets written before SRTP is up on both sides are lost legitimately: each track writes probe packets until its first packet is seen remotely, then the compared packets",
 			"the default interceptors are active (NewAPI registers them when no registry is given): NACK generator/responder, RTCP reports, TWCC, stats; the sender's RTCP is read by the harness",
+			"concurrent variant (1 in 4 cases, 2..4 tracks): every track is written from its own goroutine without pauses, WriteRTP and Write(raw) mixed, 300..500 packets each, after 0..2 (and optionally periodic) Write calls with buffers that are not RTP; the per-packet oracle is unchanged",
 			"lossy variant: the vnet chunk filter drops only first transmissions on the media SSRC; what is retransmitted late, out of order, twice or never is only counted, but every packet that IS read must carry the payload written for its tag",
 			"loss, duplication, order, sequence number, timestamp and marker are outside the statement and only counted",
 			"track and stream ids are SDP tokens [A-Za-z0-9_-]{1,16}; within one case the (stream,id) pairs are distinct",
@@ -729,7 +829,11 @@ func TestVerif_C23_Media(t *testing.T) {
 				c.Codecs[i].PT[1], c.Codecs[i].RTXPT[1] = c.Codecs[i].PT[0], c.Codecs[i].RTXPT[0]
 			}
 		}
+		concurrent := rapid.IntRange(0, 3).Draw(v.R, "concurrent") == 0
 		nt := rapid.IntRange(1, 3).Draw(v.R, "ntracks")
+		if concurrent {
+			nt = rapid.IntRange(2, 4).Draw(v.R, "ntracks_concurrent")
+		}
 		usedIDs := map[string]bool{}
 		for i := 0; i < nt; i++ {
 			tr := vfC23Track{
@@ -757,7 +861,17 @@ func TestVerif_C23_Media(t *testing.T) {
 			cd := c.Codecs[tr.Codec]
 			hasRTXVideo = hasRTXVideo || (cd.Name != "opus" && (cd.RTX || c.DefaultCodecs))
 		}
-		if hasRTXVideo && rapid.IntRange(0, 2).Draw(v.R, "lossy") == 0 {
+		if concurrent {
+			c.Concurrent = true
+			for i := range c.Tracks {
+				c.Tracks[i].N = rapid.IntRange(300, 500).Draw(v.R, "n_concurrent")
+			}
+			for k, n := 0, rapid.IntRange(0, 2).Draw(v.R, "malformed_first"); k < n; k++ {
+				c.Malformed = append(c.Malformed, rapid.IntRange(0, 4).Draw(v.R, "malformed_kind"))
+			}
+			c.MalformedEvery = rapid.SampledFrom([]int{0, 25, 40, 100}).Draw(v.R, "malformed_every")
+		}
+		if !concurrent && hasRTXVideo && rapid.IntRange(0, 2).Draw(v.R, "lossy") == 0 {
 			c.VNetDelayMs = rapid.IntRange(0, 5).Draw(v.R, "vnet_delay")
 			for i := range c.Tracks {
 				c.Tracks[i].N = rapid.IntRange(100, 140).Draw(v.R, "n_lossy")
